@@ -144,6 +144,48 @@ theorem headIsDigit_append {t : Bytes} (h : t ≠ []) : headIsDigit (t ++ x) = h
 theorem ne_nil_of_lf_mem {t : Bytes} (h : LF ∈ t) : t ≠ [] := by
   intro e; simp [e] at h
 
+/-- whether the lexer is at a line end does not depend on what follows the next line feed -/
+theorem atEol_append {a : Bytes} (h : LF ∈ a) : atEol (a ++ x) = atEol a := by
+  cases a with
+  | nil => simp at h
+  | cons c t =>
+    simp only [List.cons_append, atEol]
+    by_cases hc : c = LF
+    · subst hc; simp
+    · rw [headIs_append x _ (ne_nil_of_lf_mem (mem_tail_of_ne h hc))]
+
+theorem atEol_ne_lf {c : UInt8} {t : Bytes} (h : atEol (c :: t) = false) : c ≠ LF := by
+  intro e; subst e; simp [atEol] at h
+
+theorem advLineF_ext (p : UInt8 → Bool) (n : Nat) {z : Z} (h : HasLF z) :
+    advLineF p n (z.ext x) = (advLineF p n z).ext x ∧ HasLF (advLineF p n z) := by
+  induction n generalizing z with
+  | zero => exact ⟨rfl, h⟩
+  | succ n ih =>
+    obtain ⟨c, t, hz⟩ := h.cons
+    have hm : LF ∈ c :: t := by rw [← hz]; exact h
+    unfold advLineF
+    simp only [ext_after, hz]
+    have he := atEol_append x hm
+    simp only [List.cons_append] at he ⊢
+    rw [he]
+    split
+    · rename_i hpc
+      have hc : peek z ≠ LF := by
+        simp only [Bool.and_eq_true, Bool.not_eq_true'] at hpc
+        simpa [peek, hz] using atEol_ne_lf hpc.2
+      rw [advance_ext x h]
+      exact ih (advance_hasLF h hc)
+    · exact ⟨by simp [Z.ext, hz], h⟩
+
+theorem advLine_ext (p : UInt8 → Bool) {z : Z} (h : HasLF z) :
+    advLine p (z.ext x) = (advLine p z).ext x ∧ HasLF (advLine p z) := by
+  have h1 := advLineF_ext x p (z.ext x).after.length h
+  have h2 : advLineF p (z.ext x).after.length z = advLine p z :=
+    (advLine_eq_fuel p z _ (by simp)).symm
+  rw [h2] at h1
+  exact h1
+
 theorem expAhead_append {r : Bytes} (h : LF ∈ r) : expAhead (r ++ x) = expAhead r := by
   cases r with
   | nil => simp at h
@@ -323,12 +365,12 @@ theorem scanDate_ext {z : Z} (h : HasLF z) : scanDate (z.ext x) = extR x (scanDa
 
 theorem scanIndent_ext {z : Z} (h : HasLF z) : scanIndent (z.ext x) = extR x (scanIndent z) := by
   simp only [scanIndent]
-  rw [(advWhile_ext x _ (by decide) h).1]
+  rw [(advLine_ext x _ h).1]
   rfl
 
 theorem scanText_ext {z : Z} (h : HasLF z) : scanText (z.ext x) = extR x (scanText z) := by
   simp only [scanText]
-  rw [(advWhile_ext x _ (by decide) h).1]
+  rw [(advLine_ext x _ h).1]
   rfl
 
 theorem scanStatus_ext {z : Z} (h : HasLF z) : scanStatus (z.ext x) = extR x (scanStatus z) := by
@@ -349,13 +391,14 @@ theorem punct_ext (ty : TokType) (v : Bytes) {z : Z} (h : HasLF z) :
 
 theorem scanNewline_ext {z : Z} (h : HasLF z) : scanNewline (z.ext x) = extR x (scanNewline z) := by
   simp only [scanNewline]
-  rw [advance_ext x h]
+  have h1 := advIf_ext x (· == 0x0D) (by decide) h
+  rw [h1.1, advance_ext x h1.2]
   rfl
 
 theorem scanCode_ext {z : Z} (h : HasLF z) (hp : peek z ≠ LF) : scanCode (z.ext x) = extR x (scanCode z) := by
   simp only [scanCode]
   have h1 := advance_hasLF h hp
-  have h2 := advWhile_ext x (fun c => c != 0x29 && c != 0x0A) (by decide) h1
+  have h2 := advLine_ext x (fun c => c != 0x29) h1
   have h3 := advIf_ext x (· == 0x29) (by decide) h2.2
   rw [advance_ext x h, h2.1, h3.1]
   rfl
@@ -364,7 +407,7 @@ theorem scanQuotedCommodity_ext {z : Z} (h : HasLF z) (hp : peek z ≠ LF) :
     scanQuotedCommodity (z.ext x) = extR x (scanQuotedCommodity z) := by
   simp only [scanQuotedCommodity]
   have h1 := advance_hasLF h hp
-  have h2 := advWhile_ext x (fun c => c != 0x22 && c != 0x0A) (by decide) h1
+  have h2 := advLine_ext x (fun c => c != 0x22) h1
   have h3 := advIf_ext x (· == 0x22) (by decide) h2.2
   rw [advance_ext x h, h2.1, h3.1]
   rfl
@@ -373,7 +416,7 @@ theorem scanComment_ext {z : Z} (h : HasLF z) (hp : peek z ≠ LF) :
     scanComment (z.ext x) = extR x (scanComment z) := by
   simp only [scanComment]
   have h1 := advance_hasLF h hp
-  have h2 := advWhile_ext x (fun c => c != 0x0A) (by decide) h1
+  have h2 := advLine_ext x (fun _ => true) h1
   rw [advance_ext x h, h2.1]
   rfl
 
@@ -492,42 +535,53 @@ theorem scanInLine_ext (C : Classes) {z0 : Z} (h0 : HasLF z0) :
   obtain ⟨ch, t, hz⟩ := h.cons
   have hm : LF ∈ ch :: t := by rw [← hz]; exact h
   simp only [ext_after, hz, List.cons_append]
+  have he := atEol_append x hm
+  simp only [List.cons_append] at he
+  rw [he]
   rw [← List.cons_append, ← hz]
-  by_cases hc : ch = LF
-  · subst hc
-    simp only [beq_self_eq_true, if_true]
+  by_cases hc : atEol z.after = true
+  · simp only [hc, if_true]
     exact scanNewline_ext x h
-  · have hp : peek z ≠ LF := by simpa [peek, hz] using hc
-    have hc' : (ch == 0x0A) = false := by simpa using hc
+  · have hc0 : atEol z.after = false := by simpa using hc
+    have hc : ch ≠ LF := atEol_ne_lf (by rw [← hz]; exact hc0)
+    have hp : peek z ≠ LF := by simpa [peek, hz] using hc
     have e1 := looksLikeVirtualAccount_append x hm hc
     have e2 := nextIsCurrencySymbol_append x hm hc
     have e3 := nextIsLetterCommodity_append x hm hc
     have e4 := nextIsDigit_append x hm hc
     rw [← hz] at e1 e2 e3 e4
-    simp only [hc', Bool.false_eq_true, if_false, peekRune_ext x h, scanComment_ext x h hp, e1,
+    simp only [hc0, Bool.false_eq_true, if_false, peekRune_ext x h, scanComment_ext x h hp, e1,
       punct_ext x _ _ h, scanCode_ext x h hp, scanAt_ext x h hp, scanEquals_ext x h hp,
       scanStatus_ext x h, scanCurrencySymbol_ext x h, scanQuotedCommodity_ext x h hp, e2, e3, e4,
       scanSign_ext x h, scanText_ext x h, looksLikeDate_append x h, scanDate_ext x h,
       scanNumber_ext x h, looksLikeAccount_append x h, scanAccount_ext x h,
       scanCommodityOrText_ext x C h, apply_ite (extR x)]
 
-theorem scanLineStart_ext (C : Classes) {z0 : Z} (h0 : HasLF z0) :
-    scanLineStart C (z0.ext x) = extR x (scanLineStart C z0) := by
-  have he : ({ z0.ext x with atStart := false } : Z) = ({ z0 with atStart := false } : Z).ext x := rfl
-  have h : HasLF ({ z0 with atStart := false } : Z) := h0
-  simp only [scanLineStart, he]
-  generalize ({ z0 with atStart := false } : Z) = z at h ⊢
-  rw [peek_ext x h]
+theorem scanLineStartAt_ext (C : Classes) {z : Z} (h : HasLF z) :
+    scanLineStartAt C (z.ext x) = extR x (scanLineStartAt C z) := by
+  simp only [scanLineStartAt]
+  rw [peek_ext x h, ext_after, atEol_append x h]
   by_cases hc : peek z = LF
-  · simp only [hc]
-    simp only [isWhitespace, isDigit, isLetter]
-    simp only [show ((10 : UInt8) == 59) = false by decide, show ((10 : UInt8) != 10) = false by decide,
+  · have ha : atEol z.after = true := by
+      obtain ⟨c, t, hz⟩ := h.cons
+      have : c = LF := by simpa [peek, hz] using hc
+      simp [hz, this, atEol]
+    simp only [hc, ha]
+    simp only [isDigit, isLetter]
+    simp only [show ((10 : UInt8) == 59) = false by decide, Bool.not_true,
       Bool.and_false, Bool.false_eq_true, if_false,
       show (decide ((48 : UInt8) ≤ 10) && decide ((10 : UInt8) ≤ 57)) = false by decide,
       show (decide ((97 : UInt8) ≤ 10) && decide ((10 : UInt8) ≤ 122) || decide ((65 : UInt8) ≤ 10) && decide ((10 : UInt8) ≤ 90)) = false by decide]
     exact scanInLine_ext x C h
   · simp only [scanComment_ext x h hc, scanIndent_ext x h, scanDate_ext x h,
       scanDirectiveOrAccount_ext x h, scanInLine_ext x C h, apply_ite (extR x)]
+
+theorem scanLineStart_ext (C : Classes) {z0 : Z} (h0 : HasLF z0) :
+    scanLineStart C (z0.ext x) = extR x (scanLineStart C z0) := by
+  have he : ({ z0.ext x with atStart := false } : Z) = ({ z0 with atStart := false } : Z).ext x := rfl
+  have h : HasLF ({ z0 with atStart := false } : Z) := h0
+  simp only [scanLineStart, he]
+  exact scanLineStartAt_ext x C h
 
 /-- `Next` does not look behind the next line feed. -/
 theorem next_ext (C : Classes) {z : Z} (h : HasLF z) : next C (z.ext x) = extR x (next C z) := by
